@@ -227,6 +227,22 @@ def run_check(pid, fn, level='other', rule_text='', explanation=''):
         tb = traceback.format_exc()
         chk.error('internal error in checker: ' + tb.strip().splitlines()[-1])
         sys.stderr.write(tb)
+    if chk.tier == 'thorough' and not os.environ.get('VERIF_SELFTEST_CHILD') and not a.replay:
+        # the checker itself is tested both ways on scratch copies of the current tree (see selftest.py)
+        try:
+            from . import selftest
+            res = selftest.run(pid, REPO)
+            bad = [r for r in res if r[1] != 'ok']
+            chk.unit('selftest', {'variants': len(res), 'fires-as-expected': len([r for r in res if r[1] == 'ok' and r[2].startswith('fires')]),
+                                  'silent-as-expected': len([r for r in res if r[1] == 'ok' and r[2] == 'silent']), 'failed': ['%s: %s %s' % r for r in bad]})
+            chk.extra['selftest'] = [{'variant': n, 'outcome': o, 'detail': d} for n, o, d in res]
+            for n, o, d in bad:
+                chk.error('selftest variant %s: %s %s' % (n, o, d))
+            print('  selftest: %d variants, %d as expected' % (len(res), len(res) - len(bad)))
+        except Exception:
+            tb = traceback.format_exc()
+            chk.error('selftest failed to run: ' + tb.strip().splitlines()[-1])
+            sys.stderr.write(tb)
     rc = chk.finish()
     if a.replay:
         try:
